@@ -508,6 +508,29 @@ Definition DFANIlablist (s : lstate) (objs : list (Z * Z)) (tag maxlen : Z) : ls
   let blocks := match l_dir s1 DFAN_LABEL with Some b => b | None => [] end in
   (s1, Some (orefs, map (fun r => label_for s1 tag r maxlen blocks) orefs)).
 
+(** DFANIlablist with a caller-chosen listsize and startpos: the loop that collects the refs of the tag (bound and
+    store condition regenerated from dfan.c: LABLIST_loop, LABLIST_store) *)
+Fixpoint lablist_collect (refs : list Z) (i j nrefs listsize startpos : Z) : list Z :=
+  match refs with
+  | [] => []
+  | r :: t =>
+      if truth (LABLIST_loop i j nrefs listsize)
+      then (if truth (LABLIST_store i startpos) then r :: lablist_collect t (i + 1) (j + 1) nrefs listsize startpos
+            else lablist_collect t (i + 1) j nrefs listsize startpos)
+      else []
+  end.
+Definition DFANIlablist_page (s : lstate) (objs : list (Z * Z)) (tag maxlen listsize startpos : Z)
+  : lstate * option (list Z * list (list Z)) :=
+  if tag =? 0 then (s, None) else
+  let allrefs := map snd (filter (fun o => fst o =? tag) objs) in
+  if zlen allrefs =? 0 then (s, None) else
+  let orefs := lablist_collect allrefs 0 0 (zlen allrefs) listsize startpos in
+  if hnumber DFTAG_DIL (l_dds s) =? 0 then (s, Some (orefs, map (fun _ => []) orefs)) else
+  let '(s1, r) := match l_dir s DFAN_LABEL with None => DFANIlocate s DFAN_LABEL 0 0 | Some _ => (s, 1) end in
+  if r =? 0 then (s1, None) else
+  let blocks := match l_dir s1 DFAN_LABEL with Some b => b | None => [] end in
+  (s1, Some (orefs, map (fun r => label_for s1 tag r maxlen blocks) orefs)).
+
 Definition DFANIclear (s : lstate) : lstate :=
   mkl (l_dds s) (l_tree s) (l_num s) (l_atoms s) (l_next s) (fun _ => None) 0 (l_nextf s) (l_nomore s).
 
@@ -682,4 +705,25 @@ Definition g_fann_get (g : gstate) (kind : Z) (isfirst : bool) (maxlen : Z) : gs
   | (l1, Some t) => let '(n, buf) := fann_deliver t maxlen in
                     (mkg (upd (g_files g) (g_cur g) (hlib h l1)) (g_names g) (g_cur g) (stat_of l1) (g_lastfile g),
                      MOk [n; l_lastref l1] [buf])
+  end.
+
+(** DFANlablist with listsize and startpos (goes through DFANIopen like the other file-name based calls) *)
+Definition g_lablist_page (g : gstate) (tag maxlen listsize startpos : Z) : gstate * mres :=
+  let h := g_files g (g_cur g) in
+  if h_sess h then (g, MNoModel) else
+  if tag =? 0 then (g, MFail) else
+  let name := g_names g (g_cur g) in
+  let st1 := DFANIopen (g_lastfile g) name DFACC_READ (g_stat g) in
+  match DFANIlablist_page (with_stat (h_lib h) st1) objects tag maxlen listsize startpos with
+  | (l1, Some (orefs, labs)) =>
+      (mkg (upd (g_files g) (g_cur g) (hlib h l1)) (g_names g) (g_cur g) (stat_of l1) name, MOk (zlen orefs :: orefs) labs)
+  | (l1, None) => (mkg (upd (g_files g) (g_cur g) (hlib h l1)) (g_names g) (g_cur g) (stat_of l1) name, MFail)
+  end.
+
+(** ANend followed by ANstart on the same open file (the harness' restart line) *)
+Definition g_restart (g : gstate) : gstate * mres :=
+  let '(g1, r1) := gstep g OEnd in
+  match r1 with
+  | MOk _ _ => gstep g1 OStart
+  | _ => (g1, MFail)
   end.
